@@ -43,6 +43,11 @@ Not3(a) == IF IsErr(a) \/ IsNull(a) THEN a ELSE B(~a.v)
 FuncOf(script, name) == CHOOSE f \in Range(script.funcs) : f.name = name
 HasFunc(script, name) == \E f \in Range(script.funcs) : f.name = name
 
+RECURSIVE FirstNonNull(_)
+FirstNonNull(vs) == IF vs = <<>> THEN SqlNull
+                    ELSE IF IsErr(Head(vs)) THEN Head(vs)
+                    ELSE IF IsNull(Head(vs)) THEN FirstNonNull(Tail(vs)) ELSE Head(vs)
+
 RECURSIVE Eval(_, _, _, _), EvalList(_, _, _, _), InList(_, _), BoolAnd(_, _, _, _, _), Exec(_, _, _, _), ExecCase(_, _, _, _), CallFn(_, _, _, _)
 
 (* env: function from variable names to SQL values *)
@@ -126,6 +131,8 @@ Eval(script, e, env, fuel) ==
                                          ELSE BoolAnd(script, e, env, fuel, [i \in 1..Len(of.d.kv) |-> [key |-> Txt(of.d.kv[i][1]), value |-> Js(of.d.kv[i][2])]]))
             ELSE IF of.d.t # "arr" THEN Err("cannot extract elements from a non-array")
             ELSE BoolAnd(script, e, env, fuel, [i \in 1..Len(of.d.el) |-> [key |-> SqlNull, value |-> Js(of.d.el[i])]])
+      [] e.e = "coalesce" ->   \* the first argument that is not NULL (arguments evaluated eagerly: an error anywhere is reported)
+            FirstNonNull([i \in 1..Len(e.args) |-> Eval(script, e.args[i], env, fuel)])
       [] e.e = "call" ->
             IF ~HasFunc(script, e.fn) THEN Err("function " \o e.fn \o " does not exist")
             ELSE IF Len(e.args) # 1 THEN Err("wrong number of arguments for " \o e.fn)
